@@ -65,7 +65,7 @@ Theorem C14_written_file_rereads : forall (full : cmsg -> Frame.msg) o r em,
   Forall (fun x => C02.parsed (full x)) em -> N.of_nat (length em) <= u32max ->
   r_file r = Some em /\
   exists bytes ms' st,
-    Write.write_all (map full em) = Ok bytes /\
+    Write.write_all (map full em) = Ok (Write.WOk bytes) /\
     Iter.run_iter 0 bytes = Ok (ms', st, []) /\
     Forall2 WriteProofs.same_fields (map full em) ms' /\
     length ms' = length em.
